@@ -53,6 +53,17 @@ ResizeDevs(e) ==
              h1 == IF h < 0 \/ h > e.P[2] - y THEN e.P[2] - y ELSE h
          IN IF e.g.w = w1 /\ e.g.h = h1 THEN {} ELSE {Dev("C20.resize", "extent", [a |-> e.a, P |-> e.P, g |-> e.g])}
 
+\* Fill / Clear through the ViewPort: exactly the cells of its rectangle, each once (f = <<minx, miny, maxx, maxy, calls, cells>>)
+FillDevs(e) ==
+    LET f == e.fill  n == IF e.g.w > 0 /\ e.g.h > 0 THEN e.g.w * e.g.h ELSE 0 IN
+    IF f[5] = n /\ f[6] = n /\ (n = 0 \/ (f[1] = e.g.px /\ f[2] = e.g.py /\ f[3] = e.g.px + e.g.w - 1 /\ f[4] = e.g.py + e.g.h - 1))
+    THEN {} ELSE {Dev("C20.translate", "fill_not_the_rectangle", [op |-> e.op, g |-> e.g, fill |-> f])}
+
+\* Reset: back to the origin, no content recorded; size and place unchanged (those are in g and checked by the probes)
+ResetDevs(e) ==
+    IF e.ev # "VpOp" \/ e.op # "Reset" THEN {}
+    ELSE IF e.g.vx = 0 /\ e.g.vy = 0 /\ e.lim = <<0, 0>> THEN {} ELSE {Dev("C20.clamp", "reset", [g |-> e.g, lim |-> e.lim])}
+
 LayoutDevs(e) ==
     {Dev("C20.layout", p, [op |-> e.op, horiz |-> e.horiz, W |-> e.W, H |-> e.H, kids |-> e.kids]) : p \in LayoutWrong(e.horiz, e.W, e.H, e.kids)}
     \cup UNION { NestedDevs(e, i) : i \in 1..Len(e.kids) }
@@ -65,7 +76,7 @@ LayoutDevs(e) ==
                : i \in 1..Len(e.kids) }
     \cup (IF e.overdraw = 0 THEN {} ELSE {Dev("C20.layout", "cells_drawn_by_two_children", e.overdraw)})
 
-AllDevs(e) == IF e.ev \in {"VpNew", "VpOp"} THEN ProbeDevs(e) \cup ClampDevs(e) \cup ResizeDevs(e)
+AllDevs(e) == IF e.ev \in {"VpNew", "VpOp"} THEN ProbeDevs(e) \cup ClampDevs(e) \cup ResizeDevs(e) \cup FillDevs(e) \cup ResetDevs(e)
               ELSE IF e.ev = "Layout" THEN LayoutDevs(e)
               \* a documented call that panics leaves no state of which the property could hold
               ELSE IF e.ev = "Panic" THEN {Dev("C20.panic", e.area, [op |-> e.op, msg |-> e.msg])} ELSE {}
